@@ -867,8 +867,15 @@ pub fn judge_client(g: &GenRec, opts: &JudgeOpts) -> Result<ClientVerdict, (Stri
     }
     // what this client's own input allows
     let m = m1(&g.sent, g.limit_at_accept);
-    let allowed_100 = m.events.iter().filter(|e| matches!(e, M1Event::Continue100 { .. })).count();
     let has_parse_error = m.events.iter().any(|e| matches!(e, M1Event::Error { .. })) || m.dont_care;
+    // After a parse error the connection restarts at a point the properties leave open (the rest of the
+    // erroring read may be dropped), so the reference grammar cannot be continued exactly; an upper bound
+    // is then the number of `100-continue` expectations the client wrote at all.
+    let allowed_100 = if has_parse_error {
+        g.sent.windows(12).filter(|w| w.eq_ignore_ascii_case(b"100-continue")).count()
+    } else {
+        m.events.iter().filter(|e| matches!(e, M1Event::Continue100 { .. })).count()
+    };
     let mut p = 0usize;
     let mut next_supplied = 0usize;
     let mut seen_tags: Vec<String> = Vec::new();
